@@ -159,6 +159,11 @@ class Ctx(object):
     def oblige(self, goal, name, kind, line=0):
         if isinstance(goal, bool):
             goal = z3.BoolVal(goal)
+        if z3.is_and(goal) and goal.num_args() > 1:
+            # one obligation per conjunct (large conjunctions are what makes queries unstable)
+            for i, g in enumerate(goal.children()):
+                self.oblige(g, "%s.%d" % (name, i), kind, line)
+            return
         g = z3.simplify(goal)
         if not z3.is_true(g):
             self.obligations.append(Obligation(name, kind, list(self.pc), goal, line, self.path_id(),
@@ -178,7 +183,14 @@ class Ctx(object):
 
     def read_field(self, ref, cls, field, fty):
         arr = self.field_array(cls, field, fty)
-        return Val(fty, z3.Select(arr, ref))
+        v = Val(fty, z3.Select(arr, ref))
+        if isinstance(fty, (TList, TDict, TTuple, TOpt)):
+            k = ("tinv", arr.get_id(), ref.get_id())
+            if k not in self.counter:
+                self.counter[k] = 1
+                for c in type_invariant(v):
+                    self.assume(c)
+        return v
 
     def write_field(self, ref, cls, field, fty, val):
         arr = self.field_array(cls, field, fty)
